@@ -1796,6 +1796,31 @@ class Builtins:
             from . import jsonmodel
 
             return jsonmodel.method(X, st, selfv, name, args, kw)
+        if isinstance(selfv, VIter) and selfv.what == "keys" and name == "isdisjoint" and len(args) == 1:
+            # d.keys().isdisjoint(e.keys()) / isdisjoint(a set): no common key
+            a = st.obj(selfv.parts[0])
+            other = args[0]
+            if isinstance(other, VIter) and other.what == "keys":
+                other = other.parts[0]
+            b = st.obj(other) if isinstance(other, VObj) else None
+
+            def member(o):
+                if isinstance(o, LDict):
+                    return o.present
+                if isinstance(o, CDict):
+                    ks = list(o.items)
+                    return lambda x: z3.Or([x == self.pykey_term(k) for k in ks] or [z3.BoolVal(False)])
+                if isinstance(o, LSet):
+                    return o.member
+                if isinstance(o, CSet):
+                    ks = list(o.items)
+                    return lambda x: z3.Or([x == self.pykey_term(k) for k in ks] or [z3.BoolVal(False)])
+                raise Unsupported("isdisjoint operand")
+
+            ma, mb = member(a), member(b)
+            k = z3.Const(f"dj!{core.uid()}", core.Key)
+            none = st.forall(k, z3.BoolVal(True), z3.Not(z3.And(ma(k), mb(k))), equiv=True, name="isdisjoint")
+            return [Res(st, VBool(none))]
         if isinstance(selfv, VOpq) and selfv.tag == "opaque-dict" and name == "update" and len(args) == 1:
             # mutation of a module namespace (globals() is the live dict, not a snapshot): recorded; the frame
             # clause of the caller decides whether it is allowed
